@@ -14,6 +14,7 @@ import (
 	"github.com/google/go-tdx-guest/abi"
 	pb "github.com/google/go-tdx-guest/proto/tdx"
 	"github.com/google/go-tdx-guest/rtmr"
+	"github.com/google/go-tdx-guest/testing/testdata"
 	"github.com/google/go-tdx-guest/validate"
 	"github.com/google/go-tdx-guest/verify"
 	"google.golang.org/protobuf/encoding/prototext"
@@ -821,12 +822,27 @@ func RaceBodies(reps int) {
 		func() *pb.QuoteV4 { return c16Rebuild(parsed, 4096) },
 		func() *pb.QuoteV4 { return c16Rebuild(parsed, 0) },
 	}
+	// calls that reach package-level state built on first use (embedded root, default options, the genuine sample
+	// under no pool at all): nothing of that kind has run in this process before the first concurrent round
+	sample := append([]byte(nil), testdata.RawQuote...)
+	sampleAt := world.TimeSetAt(intelRefTime)
+	nilRoots := func() *verify.Options { n := sampleAt; return &verify.Options{Now: &n} }
 	for rep := 0; rep < reps; rep++ {
 		for _, b := range builds {
 			q := b()
 			raw := append([]byte(nil), raw0...)
 			var wg sync.WaitGroup
 			bodies := []func(){
+				func() { verify.RawTdxQuote(sample, nilRoots()) },
+				func() { verify.RawTdxQuote(sample, nilRoots()) },
+				func() { verify.TdxQuote(q, nilRoots()) },
+				func() {
+					o := verify.DefaultOptions()
+					n := sampleAt
+					o.Now = &n
+					o.Getter = w.Getter.Clone()
+					verify.TdxQuote(q, o)
+				},
 				func() { verify.TdxQuote(q, w.Options(world.L0)) },
 				func() { verify.TdxQuote(q, w.Options(world.L2)) },
 				func() { verify.TdxQuote(q, w.Options(world.L1)) },
@@ -865,7 +881,7 @@ func c16RacePass(r *mc.Run) {
 	cmd.Stderr = &stderr
 	err := cmd.Run()
 	reports := strings.Count(stderr.String(), "WARNING: DATA RACE")
-	r.Set("race_pass", map[string]any{"runs": 20 * 3, "goroutines_per_run": 11, "reports": reports})
+	r.Set("race_pass", map[string]any{"runs": 20 * 3, "goroutines_per_run": 15, "reports": reports})
 	out := "no-race"
 	if reports > 0 {
 		site := "?"
